@@ -41,6 +41,21 @@ CLAIMS = {
   'text': 'Partial, structural: to_u64/to_u128 map negative decimals to None and zero to Some(0), to_i64/to_i128 map zero to Some(0), and every other (sign, scale==0?) cell ends in a checked integer conversion of the digits or of the value truncated to scale 0 (24 cells, exhaustive over the dispatch atoms); the owned ToPrimitive methods return the same-named method of self.to_ref(); all 20 From<int>/From<&int>, From<BigInt>, From<(T,i64)>, FromPrimitive::from_i*/u*, ToBigInt are exact projections with scale literal 0; no flooring/euclidean division is reachable from the conversions or the truncating rescale. NOT decided: the MIN boundary arithmetic, is_integer.',
   'note': TRUST + ' num-bigint `/` truncates toward zero; BigInt/BigUint::to_<int> returns None exactly on overflow.',
  },
+ 'C10': {
+  'technique': 'static analysis: provenance of the Context fields at the final rounding sink (backward dependence from the return place), sign-dispatch tables from the CFG, def-use rule on the radicand of the integer root',
+  'text': 'Partial, structural: impl_sqrt and the five entry points hand ctx.precision/ctx.rounding to the rounding routine whose result is returned; negative input yields None, zero yields zero, and impl_sqrt is reached only under the non-negative arm (copy-sign/abs variants exempt by specification); no re-signing after a context-mode rounding. R-STICKY reports that the radicand is never consulted after the floor root - a recorded known finding (inexact roots with all-zero guard digits are rounded as exact). The digits of the root (including the parity defect named in the property) are NOT decided.',
+  'note': TRUST + ' One known finding is listed in known_findings.json (exact key).',
+ },
+ 'C11': {
+  'technique': 'static analysis: provenance of Context fields and of the rounding sign, lazy-tail-flag table cross-check, def-use rule on the radicand',
+  'text': 'Partial, structural: cbrt_with_context -> impl_cbrt_int_scale -> impl_cbrt_uint_scale pass ctx.precision and ctx.rounding unchanged to the final InsigData rounding; the rounding data carries n.sign() (never a literal) and the result is re-signed with that very sign, so Floor/Ceiling see the signed value; needs_trailing_zeros (lazy flag) is consistent with round_pair for all 70 (mode, digit) cells. R-STICKY: known finding (radicand exactness dropped). The digits of the root are NOT decided.',
+  'note': TRUST + ' One known finding is listed in known_findings.json (exact key).',
+ },
+ 'C12': {
+  'technique': 'static analysis: provenance of Context fields at the final sink; exact (sign, mode) mirror table extracted from the CFG of inverse_with_context',
+  'text': 'Partial, structural: the final with_precision_round in impl_inverse_uint_scale receives ctx.precision/ctx.rounding; because the implementation rounds |x| and re-signs, the extracted 21-cell (sign, mode) table must hand Ceiling for (Minus, Floor), Floor for (Minus, Ceiling) and the unchanged context otherwise - which is exactly the negation symmetry clause of the property. Convergence, termination and accuracy at small precisions are NOT decided.',
+  'note': TRUST,
+ },
 }
 _PENDING = 'check not built yet in this commit (implementation in progress, see DESIGN.md section 8)'
 NOT_APPLICABLE = {('C%02d' % i): _PENDING for i in range(1, 21) if ('C%02d' % i) not in CLAIMS}
